@@ -248,7 +248,7 @@ func runWorkbook(c *fw.Ctx, idx int, o genOpts, record bool) ([]failure, *wbMode
 	members := wb.Members(c.Rand("wb", idx, "render"))
 	ooxml.PartShuffle(members, c.Rand("wb", idx, "ziporder"))
 	data := ooxml.PartZip(members)
-	path := filepath.Join(c.Work, fmt.Sprintf("c17-%d-%v%v.xlsx", idx, o.StaleCovered, o.RowRefOmitted))
+	path := filepath.Join(c.Work, fmt.Sprintf("c17-%d-%v%v%v.xlsx", idx, o.StaleCovered, o.RowRefOmitted, o.DamagedMerge))
 	if err := os.WriteFile(path, data, 0o644); err != nil {
 		c.Inconclusive("cannot write scratch file: " + err.Error())
 		return nil, m, nil
@@ -557,6 +557,41 @@ func codec(c *fw.Ctx) {
 			}
 		}
 		c.Count("codec_ranges_checked", 20000)
+		// strings that are not A1 notation have no preimage: the inverse maps
+		// must refuse them instead of inventing coordinates (case and $ are
+		// spellings of A1 notation and are not in this list)
+		badCells := []string{"", "1A", "A", "1", "A0", "#REF!", " B2", "B2 ", "A-1", "A1B", "A1:B2", "Å1", "A+1"}
+		for _, s := range badCells {
+			if gc, gr, err := xlsx.ParseCellRef(s); err == nil && bad < 12 {
+				bad++
+				c.Fail("", "codec/accepts-non-a1", id, fmt.Sprintf("ParseCellRef(%q) = (%d,%d,nil): not A1 notation, no (col,row) maps to it", s, gc, gr), nil)
+			}
+		}
+		nb := int64(len(badCells))
+		for i := 0; i < 4000; i++ {
+			good := ooxml.XRef(r.Intn(gridC), r.Intn(gridR))
+			badc := badCells[r.Intn(len(badCells))]
+			if badc == "A1:B2" {
+				badc = "A1;B2"
+			}
+			var s string
+			switch i % 4 {
+			case 0:
+				s = badc + ":" + good
+			case 1:
+				s = good + ":" + badc
+			case 2:
+				s = badc + ":" + badc
+			default:
+				s = good + ":" + good + ":" + good
+			}
+			nb++
+			if a, b, cc, d, err := xlsx.ParseRangeRef(s); err == nil && bad < 15 {
+				bad++
+				c.Fail("", "codec/accepts-non-a1", id, fmt.Sprintf("ParseRangeRef(%q) = (%d,%d,%d,%d,nil): a corner is not A1 notation", s, a, b, cc, d), nil)
+			}
+		}
+		c.Count("codec_non_a1_strings_checked", nb)
 	})
 	c.Extra("exhaustive_subspace", fmt.Sprintf("reference codec: every column index in [0,%d) and every (col,row) in [0,%d)x[0,%d)", nCols, gridC, gridR))
 }
@@ -580,7 +615,7 @@ func Run(c *fw.Ctx) {
 			return
 		}
 		// clean half: even indices never carry the stale-covered-value feature
-		o := genOpts{StaleCovered: i%2 == 1, RowRefOmitted: i%2 == 1}
+		o := genOpts{StaleCovered: i%2 == 1, RowRefOmitted: i%2 == 1, DamagedMerge: i%4 == 3}
 		fails, m, detail := runWorkbook(c, i, o, true)
 		desc := fmt.Sprintf("%v|%d", m.Features, i)
 		var addrDesc strings.Builder
@@ -612,7 +647,7 @@ func Run(c *fw.Ctx) {
 		finding := ""
 		if hasStale(m) && c.FindingOpen(findingStale) {
 			// counterfactual: the same workbook without hidden values in covered cells
-			f2, _, d2 := runWorkbook(c, i, genOpts{StaleCovered: false, RowRefOmitted: o.RowRefOmitted}, false)
+			f2, _, d2 := runWorkbook(c, i, genOpts{StaleCovered: false, RowRefOmitted: o.RowRefOmitted, DamagedMerge: o.DamagedMerge}, false)
 			if len(f2) == 0 {
 				finding = findingStale
 			} else {
